@@ -27,6 +27,8 @@ def load_config_module():
 
 
 def raw_to_py(k, r):
+    if k == "S" and r in ("n1", "f1", "bT"):
+        return {"n1": 1, "f1": 1.0, "bT": True}[r]
     return {"n7": 7, "T": True, "F": False, "s_true": "true", "s_0": "0"}.get(r, r)
 
 
@@ -192,32 +194,45 @@ class OpReplayer:
             out = []
             for t in sorted(held):
                 cmdq[t].put("probe")
-                out += reply.get(timeout=10)
+                out += reply.get(timeout=3)
             return out
 
-        try:
-            for h in case["hist"]:
+        def step(h):
                 t, kind = h["t"], h["op"]
                 if kind == "start":
                     cmdq[t] = queue.Queue()
                     th = threading.Thread(target=worker, args=(t, h["id"]), daemon=True)
                     threads[t] = th
                     th.start()
-                    res = reply.get(timeout=10)
+                    res = reply.get(timeout=3)
                     held[t] = h["id"]
                 elif kind == "end":
                     cmdq[t].put({"op": "end"})
-                    res = reply.get(timeout=10)
+                    res = reply.get(timeout=3)
                     threads[t].join(timeout=10)
                     held.pop(t, None)
                 else:
                     cmdq[t].put(h)
-                    res = reply.get(timeout=10)
+                    res = reply.get(timeout=3)
                 tc, ic = rig.state()
                 events.append({"e": kind if kind in ("start", "end") else "op", "t": t, "op": kind,
                                "kw": [list(p) for p in h["kw"]], "k": h["k"], "onerr": h["onerr"], "id": h["id"],
                                "res": res, "fresh": False, "views": views(), "tcfg": tc, "inctx": ic,
                                "held": [[a, b] for a, b in sorted(held.items())]})
+
+        try:
+            for h in case["hist"]:
+                try:
+                    step(h)
+                except queue.Empty:
+                    # the code left the protocol of the behaviour (an operation the model lets succeed was refused earlier, so a
+                    # thread is no longer where the behaviour has it): the execution recorded so far already shows the difference
+                    tc, ic = rig.state()
+                    events.append({"e": "op", "t": h["t"], "op": h["op"] if h["op"] not in ("start", "end") else "read",
+                                   "kw": [list(p) for p in h["kw"]], "k": h["k"] if h["op"] == "read" else "S", "onerr": h["onerr"], "id": h["id"],
+                                   "res": "no_reply", "fresh": False, "views": [], "tcfg": tc, "inctx": ic,
+                                   "held": [[a, b] for a, b in sorted(held.items())]})
+                    break
         finally:
             for t in list(held):
                 # unwind whatever is left so no thread lingers
